@@ -136,6 +136,20 @@ def check(ctx, case):
             # repeated calculate with the same objects; the same function object on another cube object
             r2 = cube.calculate([f])
             r3 = mk().calculate([f])
+            # ... and on a cube WITHOUT dimensions in between (the grand total goes through other branches of fill)
+            try:
+                (ccube([]) if kind == "ccube" else xcube([])).calculate([f])
+                r4 = mk().calculate([f])
+                ctx.hit("reused_after_dimensionless_cube")
+                if not same(r1, r4):
+                    ctx.oracle_fail("%s.%s: the function object gives a different result on this cube after it was used on a cube "
+                                    "without dimensions" % (kind, name), dict(desc, reuse="dimensionless cube in between"),
+                                    cls="C17-hidden-state")
+            except Exception as e:
+                ctx.hit("dimensionless_reuse_raised:" + type(e).__name__)
+            if snap(inputs) != before:
+                ctx.oracle_fail("%s.%s changed one of its arguments during calculate on a cube without dimensions" % (kind, name), desc,
+                                cls="C17-input-mutated")
             if not same(r1, r2) or not same(r1, r3):
                 ctx.oracle_fail("%s.%s: a repeated calculate / the re-used function object gives a different result" % (kind, name),
                                 desc, cls="C17-hidden-state")
@@ -364,8 +378,67 @@ def cube_history(ctx):
         ctx.oracle_fail("cube history raised %s: %s" % (type(e).__name__, str(e)[:80]), desc, cls="C17-hidden-state")
 
 
+def reuse_across_cubes(ctx):
+    """ONE aggregate-function object of the array cube (every statistic, unweighted and weighted, both policies; facts in no
+    particular order, with and without a missing value) used on a cube WITHOUT dimensions, then on a cube with one dimension,
+    then on both again: every result must be the one a fresh object gives on that cube."""
+    from catii import xcube, xfuncs
+    rng = np.random.default_rng(ctx.seed + 17)
+    for rep in range(ctx.n(3)):
+        N = int(rng.choice([8, 11]))
+        group = rng.integers(0, 2, size=N)
+        fact = np.round(rng.permutation(N) * 1.5 + 0.25, 2)
+        fact2 = np.stack([fact, fact[::-1] * 2.0], axis=1)
+        ok = np.ones(N, dtype=bool)
+        if rep % 2:
+            ok[int(rng.integers(N))] = False
+        wts = rng.choice([0.5, 1.0, 2.0], size=N)
+        for name, two in (("sum", False), ("mean", False), ("valid_count", False), ("stddev", False), ("quantile", False),
+                          ("quantile", True), ("min", False), ("max", False), ("covariance", True), ("corrcoef", True), ("stddev", True)):
+            for w in (None, wts):
+                for ign in (False, True):
+                    if name in ("min", "max", "corrcoef") and w is not None:
+                        continue
+
+                    def mkf():
+                        fa = ((fact2 if two else fact).copy(), (np.stack([ok, ok], axis=1) if two else ok).copy())
+                        cls = getattr(xfuncs, "xfunc_" + name)
+                        if name == "quantile":
+                            return cls(fa, 0.5, None if w is None else w.copy(), ign, float("nan"))
+                        if name in ("min", "max"):
+                            return cls(fa, ign, float("nan"))
+                        if name == "corrcoef":
+                            return cls(fa, None, ign, float("nan"))
+                        return cls(fa, None if w is None else w.copy(), ign, float("nan"))
+                    desc = {"reuse_across_cubes": name, "two_columns": two, "weighted": w is not None, "ignore_missing": ign,
+                            "group": group.tolist(), "fact": fact.tolist(), "valid": ok.tolist()}
+                    ctx.case(desc, nontrivial=True)
+                    ctx.hit("reuse_across_cubes:" + name)
+                    try:
+                        alone0 = xcube([]).calculate([mkf()])
+                        alone1 = xcube([group]).calculate([mkf()])
+                    except Exception as e:
+                        ctx.hit("reuse_reference_raised:" + type(e).__name__)
+                        continue
+                    try:
+                        f = mkf()
+                        got = [xcube([]).calculate([f]), xcube([group]).calculate([f]), xcube([]).calculate([f]), xcube([group]).calculate([f])]
+                    except Exception as e:
+                        ctx.oracle_fail("xfunc_%s: re-using one object on a cube without and a cube with a dimension raised %s: %s" % (
+                            name, type(e).__name__, str(e)[:60]), desc, cls="C17-hidden-state")
+                        continue
+                    for k, (g, want) in enumerate(zip(got, [alone0, alone1, alone0, alone1])):
+                        if not same(g, want):
+                            ctx.oracle_fail("xfunc_%s (weighted=%s, ignore_missing=%s): use #%d of ONE object (cube %s dimension) gives %s, a "
+                                            "fresh object gives %s" % (name, w is not None, ign, k + 1, "with a" if k % 2 else "without",
+                                                                       str(np.asarray(g[0]).tolist())[:60], str(np.asarray(want[0]).tolist())[:60]),
+                                            desc, cls="C17-hidden-state")
+                            break
+
+
 def run(ctx):
     core.load_catii()
+    reuse_across_cubes(ctx)
     for _ in range(ctx.n(12, 300)):
         cube_history(ctx)
     for _ in range(ctx.n(60, 2000)):
